@@ -519,7 +519,7 @@ class Prov:
                 out += [("op", "yield", [o]) for o in self.origins(n.value, f, depth)]
         return out
 
-    def inline(self, term, depth=3, _seen=None):
+    def inline(self, term, depth=3, _seen=None, calls=True):
         """replace calls of package functions by the provenance of what they return, with parameters bound to the
         actual argument terms and `self` to the receiver term (bounded depth, cycles cut). Calls that resolve to
         several implementations or to none are left as they are."""
@@ -555,7 +555,7 @@ class Prov:
                 kws = {kk: rec(v, d, seen) for kk, v in t[3].items()}
                 recv = rec(t[5], d, seen) if t[5] is not None else None
                 fq = t[1]
-                if fq in p.funcs and d > 0 and fq not in seen and not p.funcs[fq].is_generator():
+                if calls and fq in p.funcs and d > 0 and fq not in seen and not p.funcs[fq].is_generator():
                     call = t[4]
                     cf = p.func_of_node.get(id(call))
                     tg = p.resolve_call(call, cf) if cf is not None else [fq]
@@ -579,7 +579,19 @@ class Prov:
                             return ("alt", outs) if len(outs) > 1 else outs[0]
                 return ("call", fq, args, kws, t[4], recv)
             if k == "attr":
-                return ("attr", rec(t[1], d, seen), t[2], t[3] if len(t) > 3 else None)
+                b = rec(t[1], d, seen)
+                # field of a freshly constructed object: C(args).f  where C.__init__ does `self.f = <param>`
+                picks = []
+                ok = True
+                for a in (b[1] if b[0] == "alt" else [b]):
+                    v = self._ctor_field(a, t[2], d, seen, rec, subst)
+                    if v is None:
+                        ok = False
+                        break
+                    picks.append(v)
+                if ok and picks:
+                    return ("alt", picks) if len(picks) > 1 else picks[0]
+                return ("attr", b, t[2], t[3] if len(t) > 3 else None)
             if k == "elem":
                 b = rec(t[1], d, seen)
                 # element of a literal tuple with a constant index
@@ -601,6 +613,33 @@ class Prov:
             return t
 
         return rec(term, depth, _seen)
+
+    def _ctor_field(self, a, field, d, seen, rec, subst):
+        p = self.p
+        if not (isinstance(a, tuple) and a[0] == "call" and a[1].startswith("class:")):
+            return None
+        cq = a[1][6:]
+        init = p.find_method(cq, "__init__")
+        if not init:
+            return None
+        f = p.funcs[init]
+        stores = [n for n in walk_no_nested(f.node) if isinstance(n, ast.Assign) and any(isinstance(t, ast.Attribute) and t.attr == field and isinstance(t.value, ast.Name) and t.value.id == f.params[0] for t in n.targets)]
+        if len(stores) != 1:
+            return None
+        # other methods may overwrite the field later; only accept when no other store exists in the class family
+        others = [1 for sf, v in self.field_stores(cq, field) if sf.qual != init]
+        if others:
+            return None
+        binding = {}
+        for pn, arg in zip(f.params[1:], a[2]):
+            binding[(init, pn)] = arg
+        for kk, v in a[3].items():
+            binding[(init, kk)] = v
+        for pn, dflt in f.param_defaults().items():
+            if (init, pn) not in binding:
+                binding[(init, pn)] = self._first(self._orig(dflt, f, None, 4, set()))
+        val = self._first(self.origins(stores[0].value, f))
+        return rec(subst(val, binding, None), d - 1 if d > 0 else 0, seen)
 
     def _is_in(self, node, func):
         x = node
